@@ -11,7 +11,7 @@ METRIC_SETS = [["ENERGY"], ["LATENCY"], ["ENERGY", "LATENCY"], ["ENERGY_DELAY_PR
 
 def gen_params(r: random.Random, *, max_einsums=3, small=True, want_multi=False) -> dict:
     kind = r.choice(["chain", "chain", "chain", "shared_input", "chain_copy"])
-    n_e = r.choice([1, 2, 2, 2, 3][: 3 + max_einsums - 1]) if not want_multi else r.choice([2, 2, 3])
+    n_e = r.choice([1, 2, 2, 2, 3][: 3 + max_einsums - 1]) if not want_multi else r.choice([2, 3, 3])
     n_e = min(n_e, max_einsums)
     if kind != "chain":
         n_e = max(2, n_e)
